@@ -182,7 +182,12 @@ impl Accept {
                 Some(WakerInterest::WorkerAvailable(idx)) => {
                     drop(guard);
 
-                    self.avail.set_available(idx, true);
+                    // The notification can arrive after the worker's handle has been removed
+                    // (worker gone); an availability bit that no handle owns would let `accept`
+                    // run with nothing to dispatch to.
+                    if self.handles.iter().any(|handle| handle.idx() == idx) {
+                        self.avail.set_available(idx, true);
+                    }
 
                     if !self.paused {
                         self.accept_all(sockets);
